@@ -25,6 +25,7 @@ import (
 	"strconv"
 	"strings"
 	"sync"
+	"sync/atomic"
 	"time"
 
 	dbm "github.com/tendermint/tm-db"
@@ -402,6 +403,8 @@ type c20Chain struct {
 
 	wireMtx sync.Mutex
 	wire    map[string][]byte // memoised wire encodings of handler results
+	// vis != 0: the node has only got as far as height vis (the chain "grows" when a case raises it); see c20CapStore
+	vis int64
 }
 
 func c20Must(err error) {
@@ -528,7 +531,7 @@ func c20BuildChain(spec c20ChainSpec) (*c20Chain, error) {
 
 	c.env = &core.Environment{
 		ProxyAppQuery: conns.Query(), ProxyAppMempool: conns.Mempool(),
-		StateStore: stateStore, BlockStore: blockStore, EvidencePool: sm.EmptyEvidencePool{},
+		StateStore: stateStore, BlockStore: c20CapStore{BlockStore: blockStore, vis: &c.vis}, EvidencePool: sm.EmptyEvidencePool{},
 		P2PTransport: c20Transport{}, PubKey: c.keyPool[0].PubKey(), GenDoc: gen,
 		TxIndexer: txIdx, BlockIndexer: blkIdx, ConsensusReactor: &consensus.Reactor{}, EventBus: bus,
 		Mempool: mempoolmock.Mempool{}, Logger: log.NewNopLogger(),
@@ -541,6 +544,62 @@ func (c *c20Chain) stop() {
 		c.stops[i]()
 	}
 }
+
+// c20CapStore shows the block store as it was when the node had committed only vis blocks: a case that lets the chain grow
+// between two requests raises vis. Everything above vis is absent, the canonical commit of vis itself (it lives in block
+// vis+1) too; the seen commit of vis is there, as in a real node.
+type c20CapStore struct {
+	sm.BlockStore
+	vis *int64
+}
+
+func (s c20CapStore) top() int64 {
+	if v := atomic.LoadInt64(s.vis); v != 0 && v < s.BlockStore.Height() {
+		return v
+	}
+	return s.BlockStore.Height()
+}
+func (s c20CapStore) Height() int64 { return s.top() }
+func (s c20CapStore) Size() int64   { return s.top() - s.BlockStore.Base() + 1 }
+func (s c20CapStore) LoadBlock(h int64) *types.Block {
+	if h > s.top() {
+		return nil
+	}
+	return s.BlockStore.LoadBlock(h)
+}
+func (s c20CapStore) LoadBlockMeta(h int64) *types.BlockMeta {
+	if h > s.top() {
+		return nil
+	}
+	return s.BlockStore.LoadBlockMeta(h)
+}
+func (s c20CapStore) LoadBlockPart(h int64, i int) *types.Part {
+	if h > s.top() {
+		return nil
+	}
+	return s.BlockStore.LoadBlockPart(h, i)
+}
+func (s c20CapStore) LoadBlockCommit(h int64) *types.Commit {
+	if h >= s.top() && s.top() < s.BlockStore.Height() {
+		return nil
+	}
+	return s.BlockStore.LoadBlockCommit(h)
+}
+func (s c20CapStore) LoadSeenCommit(h int64) *types.Commit {
+	if h > s.top() {
+		return nil
+	}
+	return s.BlockStore.LoadSeenCommit(h)
+}
+func (s c20CapStore) LoadBlockByHash(hash []byte) *types.Block {
+	b := s.BlockStore.LoadBlockByHash(hash)
+	if b != nil && b.Height > s.top() {
+		return nil
+	}
+	return b
+}
+
+func (c *c20Chain) setVis(v int64) { atomic.StoreInt64(&c.vis, v) }
 
 // activate makes this chain the one rpc/core serves (package-level singleton, exactly as in a node).
 func (c *c20Chain) activate() { core.SetEnvironment(c.env) }
@@ -560,6 +619,8 @@ type c20Node struct {
 	mtx   sync.Mutex
 	lie   c20Falsifier
 	calls map[string]int
+	// afterServe (optional) runs after the node has produced its answer to a request (method, request key)
+	afterServe func(method, key string)
 }
 
 func (n *c20Node) setLie(f c20Falsifier) { n.mtx.Lock(); n.lie = f; n.mtx.Unlock() }
@@ -605,7 +666,27 @@ var c20Ctx = &rpctypes.Context{}
 // serve: run the real handler (once per distinct request — the stores never change after the chain is built —
 // its wire encoding is memoised), decode a private copy for this caller, let the falsifier at it.
 func (n *c20Node) serve(method, key string, call func() (interface{}, error), out interface{}) error {
+	reqKey := key
 	key = method + "|" + key
+	if atomic.LoadInt64(&n.chain.vis) != 0 {
+		// a growing chain: answers depend on the moment, nothing is memoised
+		res, err := call()
+		if err != nil {
+			return err
+		}
+		bz, err := tmjson.Marshal(res)
+		if err != nil {
+			return fmt.Errorf("encode: %w", err)
+		}
+		if n.afterServe != nil {
+			n.afterServe(method, reqKey)
+		}
+		if err := tmjson.Unmarshal(bz, out); err != nil {
+			return fmt.Errorf("decode: %w", err)
+		}
+		n.finish(method, out)
+		return nil
+	}
 	n.chain.wireMtx.Lock()
 	bz, ok := n.chain.wire[key]
 	n.chain.wireMtx.Unlock()
